@@ -323,7 +323,9 @@ func H_C01_order() {
 	dir := vxrt.Dir()
 	path := dir + "/f.snap"
 	var content string
-	switch vxrt.Choice("order", 3) {
+	switch vxrt.Choice("order", 4) {
+	case 3: // in call order, but with CRLF line endings (an autocrlf checkout)
+		content = "\r\n[TestT - 1]\r\n\"one\"\r\n---\r\n\r\n[TestT - 2]\r\n\"two\"\r\n---\r\n"
 	case 0:
 		content = vxFrame("TestT - 2", `"two"`) + vxFrame("TestU - 1", `"u"`) + vxFrame("TestT - 1", `"one"`)
 	case 1:
